@@ -174,6 +174,25 @@ def test_case(case, note):
                 if not np.allclose(o[nk], want, rtol=1e-12, atol=1e-300):
                     note.fail(f"{nk}:not-constraint-over-scale",
                               dict(err=float(np.max(np.abs(o[nk] - want)))))
+    # the named components are the components of the vectors (a quantity
+    # that converges to zero would hide a permutation), and the covariant
+    # form is the contravariant one lowered with the supplied metric
+    for (o, ex) in ((o1, ex1), (o2, ex2)):
+        for i, c in enumerate("xyz"):
+            for vec, comp in (("Momentumup3", "Momentum" + c),
+                              ("Momentumdown3", "Momentumdown" + c)):
+                if vec in o and comp in o and not np.array_equal(
+                        np.asarray(o[vec])[i], o[comp], equal_nan=True):
+                    note.fail(f"{comp}:not-component-{i}-of-{vec}", {})
+        if "Momentumup3" in o and "Momentumdown3" in o:
+            low = np.einsum('ij...,j...->i...', ex["gamma"],
+                            np.asarray(o["Momentumup3"]))
+            sc = float(np.max(np.abs(low))) + 1e-300
+            if not np.all(np.abs(low - np.asarray(o["Momentumdown3"]))
+                          <= 1e-11 * sc * A.cond(ex)):
+                note.fail("Momentumdown3:not-lowered-Momentumup3", dict(
+                    err=float(np.max(np.abs(
+                        low - np.asarray(o["Momentumdown3"])))), scale=sc))
     for key, fld, nd in DT_KEYS:
         cv(key, d1[fld], d2[fld], S2 if nd >= 2 else S1, nd)
     rho1 = np.einsum('ab...,a...,b...->...', ex1["Tdown"], ex1["nup"],
